@@ -252,6 +252,48 @@ class C19(Check):
                         if abs(v - res['box'][0]) > TOL:
                             R.violation(f'distance_to/{bname}/integer-typed-box-differs', d,
                                         f"{kind}: {v!r} vs float box {res['box'][0]!r}")
+                # the same box / flag in other legal forms; the same residue object edited atom by atom
+                if not isinstance(res['box'], Exception) and not isinstance(res['inv'], Exception) \
+                        and (not any(n) or n == [1, -2, 3]):
+                    d = dict(case, n=n, who=who, form='box')
+                    alt = []
+                    bf, bt = np.asfortranarray(box.copy()), box.T.copy().T
+                    fi = np.asfortranarray(inv_box.copy())
+                    alt.append(('box-fortran-ordered', lambda: sa.distance_to(ab, box_vects=bf), res['box'][0]))
+                    alt.append(('box-fortran-ordered-again', lambda: sa.distance_to(ab, box_vects=bf), res['box'][0]))
+                    alt.append(('box-transposed-view', lambda: sa.distance_to(ab, box_vects=bt), res['box'][0]))
+                    alt.append(('inverse-fortran-ordered', lambda: sa.distance_to(ab, box_vects=fi, inv=True), res['inv'][0]))
+                    alt.append(('inverse-fortran-ordered-again', lambda: sa.distance_to(ab, box_vects=fi, inv=True), res['inv'][0]))
+                    alt.append(('inv-flag-numpy-bool', lambda: sa.distance_to(ab, box_vects=inv_box.copy(), inv=np.bool_(True)), res['inv'][0]))
+                    alt.append(('inv-flag-one', lambda: sa.distance_to(ab, box_vects=inv_box.copy(), inv=1), res['inv'][0]))
+                    alt.append(('inv-flag-zero', lambda: sa.distance_to(ab, box_vects=box.copy(), inv=0), res['box'][0]))
+                    for kind, fn, want in alt:
+                        try:
+                            v = float(fn())
+                        except Exception as exc:
+                            R.violation(f'distance_to/{bname}/exception', d, f'{kind}: {exc!r}')
+                            continue
+                        R.case(dict(d, argform=kind), nontrivial=True, cls=cls + '/argument-forms')
+                        if not abs(v - want) <= TOL:
+                            R.violation(f'distance_to/{bname}/same-arguments-in-another-form-differ', d,
+                                        f'{kind}: {v!r} vs {want!r}')
+                    if ka != 'pt' or True:
+                        # a residue that has answered a query is then moved by assigning its atoms' positions one by one
+                        w = np.array([0.3, -0.2, 0.1])
+                        try:
+                            for at in sa:
+                                at.position = at.position + w
+                            moved = float(sa.distance_to(ab, box_vects=box.copy()))
+                            fresh = float(objs(a + w, ka, 7)[0].distance_to(ab, box_vects=box.copy()))
+                            for at in sa:
+                                at.position = at.position - w
+                        except Exception as exc:
+                            R.violation(f'distance_to/{bname}/exception', d, f'atoms moved one by one: {exc!r}')
+                        else:
+                            R.case(dict(d, argform='atoms-moved-one-by-one'), nontrivial=True, cls=cls + '/argument-forms')
+                            if not abs(moved - fresh) <= TOL:
+                                R.violation(f'distance_to/{bname}/residue-moved-atom-by-atom-differs-from-a-fresh-one', d,
+                                            f'{moved!r} vs {fresh!r}')
                 for form in forms:
                     d = dict(case, n=n, who=who, form=form)
                     if isinstance(res[form], Exception):
